@@ -96,7 +96,7 @@ finding(
 
 # ------------------------------------------------------------------ open
 finding("P9", ["C12"], "open", "sync leaves function and argparse targets that differ from the truth untouched ('unchanged'); Class.method targets get a new top-level def appended on every run; (repair would break 4 pinned test_conformance tests)")
-finding("P12", ["C01", "C08"], "open", "string default '' is emitted as 'Defaults to' and lost; string defaults containing '.' are truncated")
+finding("P12", ["C01", "C08"], "open", "string default '' is emitted as 'Defaults to' and lost; string defaults containing '.' are truncated; a string default that itself contains a `Defaults to X` fragment is taken apart by the same prose scanner")
 finding("P13", ["C02", "C03", "C04"], "open", "argparse: a required parameter without default re-parses with the zero value of its type; single-member Literal loses choices and comes back str; bool without default comes back Optional[bool]; types outside scalar/Optional/Literal/List fall back to str")
 finding("P14", ["C03", "C12"], "open", "`a: int` without default -> function hop (=None) -> class/pydantic hop gives Optional[int]")
 finding("P15", ["C06"], "open", "Literal pattern 'x|yy' is unanchored: also accepts superstrings such as 'xx' and 'axb'")
